@@ -142,7 +142,7 @@ Theorem no_peers_fast_last_pipe : forall s p pp,
   (forall c x, Req.aget c (Req.ctxs s) = Some x ->
      In c (Req.woken s') /\
      (forall t e, Req.send_waits s' t c e = false) /\
-     (forall t m, Req.c_sendMsg x = Some (t, m) -> Req.c_closed x = false -> In (ORet t (RErr ENoPeers)) (Req.out (Req.send_finish s' t c))) /\
+     (forall t m, Req.c_sendMsg x = Some (t, m) -> Req.c_closed x = false -> forall e, In (ORet t (RErr ENoPeers)) (Req.out (Req.send_finish s' t c e))) /\
      (forall id, id <> 0 -> Req.recv_waits s' c id = false) /\
      (forall fixed t id, Req.c_closed x = false -> In (ORet t (RErr ENoPeers)) (Req.out (Req.recv_finish fixed s' t c id false)))).
 Proof. exact DeadlineReqProofs.last_pipe_leaves_parked_calls. Qed.
@@ -157,6 +157,21 @@ Theorem no_peers_fast_witness :
    ([ORet 6 (RErr ENoPeers)], []); ([ORet 7 (RErr ENoPeers)], [])].
 Proof. exact DeadlineReqProofs.np_witness_trace. Qed.
 Print Assumptions no_peers_fast_witness.
+
+(* REQ, the repaired SendMsg (fix 662fe76): whatever cancels the request of a context -- the deadline of a Recv on that
+   context, a newer Send, Close -- ends the wait of a Send that was still waiting for a ready pipe (cancel stops that
+   Send's timer and takes it off the send queue, so nothing else would ever wake it: the defect was a Send hanging beyond
+   its deadline for ever).  Stated over Model/Req.v: after cancel the wait condition of every Send parked on the context
+   is false, and the code after the wait loop returns the cancellation error. *)
+Theorem C18_req_cancel_ends_parked_send : forall s t c e, Req.send_waits (Req.cancel s c) t c e = false.
+Proof. exact DeadlineReqProofs.send_waits_after_cancel. Qed.
+Print Assumptions C18_req_cancel_ends_parked_send.
+
+Theorem C18_req_canceled_send_reports_it : forall s t c x m,
+  Req.aget c (Req.ctxs s) = Some x -> Req.c_sendMsg x = Some (t, m) -> Req.c_closed x = false -> Req.c_fnp x = false ->
+  In (ORet t (RErr ECanceled)) (Req.out (Req.send_finish s t c false)).
+Proof. exact DeadlineReqProofs.send_finish_canceled. Qed.
+Print Assumptions C18_req_canceled_send_reports_it.
 
 (* ---- the code as found violates "never hanging beyond it" in one situation: a READQ-LEN / WRITEQ-LEN change while
    a Recv with a deadline is parked wakes it through sizeQ and RecvMsg calls time.After again (xpair, xreq, xpull,
